@@ -38,6 +38,9 @@ type Program struct {
 	cgVTA  *callgraph.Graph
 	cgCHA  *callgraph.Graph
 	Sizes  types.Sizes
+	// UseCHA makes VTA() return the (coarser) CHA graph: used by the thorough
+	// tier to re-run scope-defining reachability on a strictly larger graph.
+	UseCHA bool
 }
 
 // Load type-checks ./... in repoDir and builds SSA for the whole program.
@@ -171,6 +174,9 @@ func (p *Program) FuncOK(name string) (*ssa.Function, bool) {
 
 // VTA returns the VTA call graph (seeded with CHA), built once.
 func (p *Program) VTA() *callgraph.Graph {
+	if p.UseCHA {
+		return p.CHA()
+	}
 	if p.cgVTA == nil {
 		p.cgVTA = vta.CallGraph(ssautil.AllFunctions(p.Prog), p.CHA())
 	}
